@@ -17,6 +17,7 @@ import (
 	"net/http/httptest"
 	"os"
 	"path/filepath"
+	"regexp"
 	"strings"
 	"sync"
 	"testing"
@@ -129,7 +130,11 @@ func drawReferrer(rt *rapid.T, remoteMode bool) Referrer {
 			layer.set("mediaType", jstr(rp.Pick(rt, "layerMT", "", "text/plain", otherFormat(format), strings.Repeat("t", 10000), "application/jose+json; charset=utf-8", ocispec.MediaTypeImageManifest, ocispec.MediaTypeImageIndex)))
 			if mt := layer.get("mediaType").s; mt == ocispec.MediaTypeImageManifest || mt == ocispec.MediaTypeImageIndex {
 				// a manifest-typed layer is followed by the store: keep its declared size survivable (see "oversized")
-				layer.set("size", jnum(rp.Pick(rt, "manifestLayerSize", fmt.Sprint(len(blob)), "1073741824", "0", "-1")))
+				big := "1073741824"
+				if shard, _ := stats.Shard(); shard != 0 {
+					big = fmt.Sprint(len(blob) + 7)
+				}
+				layer.set("size", jnum(rp.Pick(rt, "manifestLayerSize", fmt.Sprint(len(blob)), big, "0", "-1")))
 				op += "=manifest-typed"
 			}
 		case "config":
@@ -148,7 +153,13 @@ func drawReferrer(rt *rapid.T, remoteMode bool) Referrer {
 				// beyond the runaway threshold yet survivable for this process; terabyte sizes are never
 				// put on a manifest-typed descriptor (an honest out-of-memory kill would take the shard
 				// down instead of producing a finding).
-				s.set("size", jnum(rp.Pick(rt, "oversize", "1073741824", "2147483648", "600000000")))
+				if shard, _ := stats.Shard(); shard != 0 {
+					s.set("size", jnum(fmt.Sprint(l.desc.Size+7))) // one shard pays for the gigabytes
+				} else if stats.Tier() == "thorough" {
+					s.set("size", jnum(rp.Pick(rt, "oversize", "1073741824", "2147483648", "600000000")))
+				} else {
+					s.set("size", jnum(rp.Pick(rt, "oversize", "1073741824", "600000000")))
+				}
 				op += "=oversized"
 			case "own-layer": // the closest a content-addressed manifest gets to pointing at itself
 				s = layer.clone()
@@ -187,7 +198,7 @@ func drawReferrer(rt *rapid.T, remoteMode bool) Referrer {
 		}
 		recipe = append(recipe, op)
 	}
-	ref.Manifest = m.bytes()
+	ref.Manifest = survivable(m.bytes())
 	if rapid.IntRange(0, 9).Draw(rt, "descriptorType") == 0 {
 		ref.MediaType = rp.Pick(rt, "descMT", mtArtifactManifest, ocispec.MediaTypeImageManifest, ocispec.MediaTypeImageIndex, "application/octet-stream", "")
 	}
@@ -202,6 +213,107 @@ func drawReferrer(rt *rapid.T, remoteMode bool) Referrer {
 	}
 	ref.Recipe = strings.Join(recipe, ";")
 	return ref
+}
+
+// followedTypes are the media types whose content the store fetches and parses when it
+// indexes a layout (oras content.Successors): a descriptor of such a type is "followed".
+var followedTypes = map[string]bool{ocispec.MediaTypeImageManifest: true, ocispec.MediaTypeImageIndex: true, mtArtifactManifest: true,
+	"application/vnd.docker.distribution.manifest.v2+json": true, "application/vnd.docker.distribution.manifest.list.v2+json": true}
+
+const (
+	survivableSize = 2147483648 // 2 GiB: the largest size this harness lets a followed descriptor declare
+	oversizedFrom  = runawayBytes
+)
+
+// followedSizes calls fn for every size member of an object that (also) names a followed media
+// type, anywhere in v. Keys are matched case-insensitively, as encoding/json does.
+func followedSizes(v *jv, fn func(size *jv)) {
+	if v == nil {
+		return
+	}
+	if v.k == 'o' {
+		followed := false
+		for _, m := range v.mem {
+			if strings.EqualFold(m.key, "mediaType") && m.val != nil && m.val.k == 's' && followedTypes[m.val.s] {
+				followed = true
+			}
+		}
+		for _, m := range v.mem {
+			if followed && strings.EqualFold(m.key, "size") && m.val != nil && m.val.k == 'n' {
+				fn(m.val)
+			}
+			followedSizes(m.val, fn)
+		}
+	}
+	for _, e := range v.arr {
+		followedSizes(e, fn)
+	}
+}
+
+func sizeValue(n *jv) (int64, bool) {
+	if len(n.s) > 19 || strings.ContainsAny(n.s, ".eE-") {
+		return 0, false // not an int64 the decoder would accept (or negative): no allocation
+	}
+	var x int64
+	if _, err := fmt.Sscanf(n.s, "%d", &x); err != nil {
+		return 0, false
+	}
+	return x, true
+}
+
+// survivable bounds the size a followed descriptor declares in a document the store will
+// parse (a referrer manifest, index.json). The store allocates that size up front when it
+// indexes the layout (known finding C12:runaway-allocation:registry.NewOCIRepository); with
+// terabytes the process is killed for lack of memory, and beyond 2^48 bytes the store's
+// goroutine panics ("makeslice: len out of range") - both take the whole test process down
+// instead of producing a finding, so the generator keeps the same defect observable at a
+// size this process survives. Sizes on descriptors that are not followed (signature layers,
+// config) are left alone: they exercise notation-go's own size caps.
+func survivable(doc []byte) []byte {
+	t, err := jparse(doc)
+	if err != nil {
+		// not one clean JSON value (truncated, trailing data, very deep): bound every long integer after a size key
+		return sizeRE.ReplaceAllFunc(doc, func(m []byte) []byte {
+			sub := sizeRE.FindSubmatch(m)
+			if len(sub[2]) >= 10 && string(sub[2]) > "2147483648" || len(sub[2]) > 10 {
+				return append(append([]byte{}, sub[1]...), []byte(fmt.Sprint(survivableSize))...)
+			}
+			return m
+		})
+	}
+	changed := false
+	followedSizes(t, func(n *jv) {
+		if x, ok := sizeValue(n); ok && x > survivableSize {
+			n.s, changed = fmt.Sprint(survivableSize), true
+		}
+	})
+	if !changed {
+		return doc
+	}
+	return t.bytes()
+}
+
+var sizeRE = regexp.MustCompile(`(?i)("size"\s*:\s*)(\d+)`)
+
+// hasOversizedFollowed reports whether a document declares a followed descriptor beyond the
+// runaway threshold: the cell of the known finding.
+func hasOversizedFollowed(doc []byte) bool {
+	t, err := jparse(doc)
+	if err != nil {
+		for _, m := range sizeRE.FindAllSubmatch(doc, -1) {
+			if len(m[2]) >= 9 {
+				return true
+			}
+		}
+		return false
+	}
+	found := false
+	followedSizes(t, func(n *jv) {
+		if x, ok := sizeValue(n); ok && x > oversizedFrom {
+			found = true
+		}
+	})
+	return found
 }
 
 // HandEdit is one manual change of the layout directory.
@@ -443,6 +555,28 @@ func runLayout(r *runner, c *LayoutCase) (classes []string, nontrivial bool) {
 			repoB = rb
 		}
 	})
+	// The known cell: a followed descriptor with an oversized declaration makes the store allocate
+	// that size while it opens the layout. A runaway allocation of the same call WITHOUT such a
+	// descriptor in the case is another mechanism and gets its own key.
+	oversized := false
+	for _, ref := range c.Referrers {
+		oversized = oversized || hasOversizedFollowed(ref.Manifest)
+	}
+	for _, e := range c.Edits {
+		oversized = oversized || (e.Target == "index.json" && hasOversizedFollowed(e.Data))
+	}
+	if oversized {
+		classes = append(classes, "oversized-followed-descriptor")
+	}
+	for i := range r.findings {
+		if r.findings[i].Key == "C12:runaway-allocation:registry.NewOCIRepository" {
+			if oversized {
+				classes = append(classes, "runaway:known-cell")
+			} else {
+				r.findings[i].Key += ":no-oversized-descriptor"
+			}
+		}
+	}
 	if repoB != nil {
 		probe(r, c, repoB, ps)
 		classes = append(classes, "phase=reopened")
@@ -497,7 +631,7 @@ func drawHandEdit(rt *rapid.T, c *LayoutCase) HandEdit {
 		switch rp.Pick(rt, "indexKind", "edited", "edited", "edited", "null", "array", "empty-object", "manifests-null", "truncated", "garbage", "hostile-descriptor") {
 		case "edited":
 			jsonEdit(rt, idx, false)
-			return HandEdit{Op: "write", Target: "index.json", Data: idx.bytes()}
+			return HandEdit{Op: "write", Target: "index.json", Data: survivable(idx.bytes())}
 		case "null":
 			return HandEdit{Op: "write", Target: "index.json", Data: []byte("null")}
 		case "array":
@@ -508,13 +642,13 @@ func drawHandEdit(rt *rapid.T, c *LayoutCase) HandEdit {
 			return HandEdit{Op: "write", Target: "index.json", Data: []byte(`{"schemaVersion":2,"manifests":null}`)}
 		case "truncated":
 			b := idx.bytes()
-			return HandEdit{Op: "write", Target: "index.json", Data: b[:len(b)/2]}
+			return HandEdit{Op: "write", Target: "index.json", Data: survivable(b[:len(b)/2])}
 		case "garbage":
 			return HandEdit{Op: "write", Target: "index.json", Data: []byte("\xff\x00garbage")}
 		default:
 			descs.arr = append(descs.arr, jobj(jm{"mediaType", jstr(ocispec.MediaTypeImageManifest)}, jm{"digest", jstr(rp.Pick(rt, "indexDigest", hostileDigests...))}, jm{"size", jnum(rp.Pick(rt, "indexSize", "-1", "0", "5", "1099511627776"))},
 				jm{"annotations", jobj(jm{"org.opencontainers.image.ref.name", jstr(rp.Pick(rt, "refName", "v1", "v2", "", "../x", strings.Repeat("t", 300)))})}))
-			return HandEdit{Op: "write", Target: "index.json", Data: idx.bytes()}
+			return HandEdit{Op: "write", Target: "index.json", Data: survivable(idx.bytes())}
 		}
 	case "oci-layout":
 		if rapid.Bool().Draw(rt, "removeLayoutFile") {
@@ -694,6 +828,18 @@ func TestC12_HostileLayout(t *testing.T) {
 			runLayoutCase(t, rec, &rc, "replay")
 		}
 		return
+	}
+	if shard, _ := stats.Shard(); shard == 0 {
+		// The cell of the known finding, once per run and deterministically: an otherwise valid
+		// referrer whose subject keeps the artifact's digest but declares 1 GiB.
+		l := layoutFixtures()
+		sub := subjectJSON()
+		sub.set("size", jnum("1073741824"))
+		m := jobj(jm{"schemaVersion", jnum("2")}, jm{"mediaType", jstr(ocispec.MediaTypeImageManifest)},
+			jm{"config", jobj(jm{"mediaType", jstr(mtNotation)}, jm{"digest", jstr(emptyJSONDigest)}, jm{"size", jnum("2")})},
+			jm{"layers", jarr(descJSON(envb.MTJWS, l.envs[envb.MTJWS]))}, jm{"subject", sub})
+		runLayoutCase(t, rec, &LayoutCase{Family: 4, Mode: "layout", Referrers: []Referrer{{MediaType: ocispec.MediaTypeImageManifest, Manifest: m.bytes(),
+			Blobs: [][]byte{l.envs[envb.MTJWS]}, Recipe: "subject=oversized"}}}, "known-cell-probe")
 	}
 	rp.Check(t, 320, 8000, property(func(rt *rapid.T) {
 		c := drawLayoutCase(rt, "layout")
